@@ -397,8 +397,10 @@ func main() {
 	r.Set("cases_rejected_not_configured", kindCount["rejected-unconfigured"].Load())
 	r.Set("cases_regexp_conf_addressed_by_literal_name_dont_care", literalRegexpReq.Load())
 	if multiMatch.Load() == 0 || kindCount["exact"].Load() == 0 {
+		os.RemoveAll(dir)
 		vcommon.Harness("vacuous: no multi-match or no exact case")
 	}
+	os.RemoveAll(dir)
 	r.Exhaustive = true
 	r.Assumptions = []string{
 		"'valid' is the rule spelled out in the statement of C06 (re-implemented in the harness, not conf.IsValidPathName)",
